@@ -428,8 +428,18 @@ def coerce_hint_any(hint: Hint) -> Hint:
         # both named "K", as commonly occurs when a class is redefined).
         # Replacing this hint by that cached hint would then type-check
         # against the wrong class. In that case, preserve this hint as is.
-        if hint_cached is hint or hint_cached == hint:
-            hint = hint_cached  # type: ignore[assignment]
+        #
+        # Note that comparing two arbitrary hints may itself raise an exception
+        # (e.g., "TypeError: unhashable type: 'list'" for the invalid hint
+        # "list[Literal[[1]]]", whose PEP 586-compliant child hashes its
+        # arguments on comparison). Hints that cannot be compared are simply
+        # *NOT* deduplicated; their validity is decided elsewhere.
+        if hint_cached is not hint:
+            try:
+                if hint_cached == hint:
+                    hint = hint_cached  # type: ignore[assignment]
+            except Exception:
+                pass
     # Else, this hint is (hopefully) self-caching.
 
     # ..................{ RETURN                             }..................
